@@ -372,6 +372,11 @@ func (E *Engine) callWrites(fn *ssa.Function, cc *ssa.CallCommon, site ssa.Instr
 	case *ssa.MakeClosure:
 		E.fnWrites(v.Fn.(*ssa.Function), cc.Args, v.Bindings, tenv, w)
 		return
+	case *ssa.Parameter:
+		// a function-typed parameter of the target of a //verif:pure-func-params contract
+		if E.harness != nil && E.harness.PureFuncParams && E.harness.Target != nil && originOf(fn) == originOf(E.harness.Target) {
+			return
+		}
 	}
 	w.all = true
 }
